@@ -63,6 +63,48 @@ static RefIluk ref_iluk(const gen::Csr &A, int k) {
     return r;
 }
 
+
+// Reference ILUT with the library's dual-threshold rule (ilut.hpp): row tolerance tau * sum|a_ij| / (lenL + lenU); a multiplier
+// below the tolerance updates nothing; at the end of the row entries <= tolerance are dropped and the int(lenL*p) largest of L and
+// the int(lenU*p) largest of the diagonal-plus-U part (diagonal always first) are kept.  Worlds in which a comparison is decided by
+// less than a relative 1e-9 (ties of equal magnitudes) are ambiguous for std::nth_element and are skipped.
+struct RefIlut { Eigen::MatrixXd LU; bool ambiguous = false, breakdown = false; long dropped = 0, fill = 0; };
+static RefIlut ref_ilut(const gen::Csr &A, double p, double tau) {
+    const long n = A.n; RefIlut r;
+    std::vector<std::vector<std::pair<long, long double> > > Lr(n), Ur(n); std::vector<long double> Dg(n, 0.0L);
+    auto close = [](long double a, long double b) { return fabsl(a - b) <= 1e-9L * std::max(fabsl(a), fabsl(b)); };
+    for (long i = 0; i < n; ++i) {
+        std::vector<long double> w(n, 0.0L); std::vector<char> pres(n, 0); long lenL = 0, lenU = 0; long double tol = 0;
+        for (ptrdiff_t j = A.ptr[i]; j < A.ptr[i+1]; ++j) { long c = A.col[j]; w[c] = A.val[j]; pres[c] = 1; tol += fabsl((long double)A.val[j]); if (c < i) ++lenL; if (c > i) ++lenU; }
+        if (lenL + lenU == 0) { r.breakdown = true; return r; }      // the library divides by lenL + lenU
+        tol *= (long double)tau / (long double)(lenL + lenU);
+        for (long k = 0; k < i; ++k) if (pres[k]) {
+            w[k] = w[k] / Dg[k]; long double wk = w[k];
+            if (close(fabsl(wk), tol) && tol > 0) r.ambiguous = true;
+            if (fabsl(wk) > tol) for (size_t q = 0; q < Ur[k].size(); ++q) { long c = Ur[k][q].first; if (!pres[c]) { pres[c] = 1; if (c != i) ++r.fill; } w[c] -= wk * Ur[k][q].second; }
+        }
+        std::vector<std::pair<long double, long> > Lc, Uc;      // (|value|, column)
+        for (long c = 0; c < n; ++c) if (pres[c] && c != i) { long double a = fabsl(w[c]); if (close(a, tol) && tol > 0) r.ambiguous = true; if (a > tol) (c < i ? Lc : Uc).push_back(std::make_pair(a, c)); else ++r.dropped; }
+        if (!pres[i] || w[i] == 0) { r.breakdown = true; return r; }
+        long lp = (long)(int)(lenL * p), up = (long)(int)(lenU * p);
+        auto keep = [&](std::vector<std::pair<long double, long> > &v, long cnt) { std::sort(v.begin(), v.end(), [](const std::pair<long double,long> &a, const std::pair<long double,long> &b) { return a.first > b.first; });
+            if (cnt < 0) cnt = 0; if ((long)v.size() > cnt) { if (cnt > 0 && close(v[cnt-1].first, v[cnt].first)) r.ambiguous = true; r.dropped += (long)v.size() - cnt; v.resize(cnt); } };
+        keep(Lc, lp); keep(Uc, up - 1);      // the diagonal takes one of the 'up' places
+        for (size_t q = 0; q < Lc.size(); ++q) Lr[i].push_back(std::make_pair(Lc[q].second, w[Lc[q].second]));
+        for (size_t q = 0; q < Uc.size(); ++q) Ur[i].push_back(std::make_pair(Uc[q].second, w[Uc[q].second]));
+        Dg[i] = w[i];
+    }
+    r.LU = Eigen::MatrixXd::Zero(n, n);
+    for (long i = 0; i < n; ++i) {
+        // row i of (I + L) * (D + U)
+        std::vector<long double> row(n, 0.0L);
+        auto addU = [&](long t, long double f) { row[t] += f * Dg[t]; for (size_t q = 0; q < Ur[t].size(); ++q) row[Ur[t][q].first] += f * Ur[t][q].second; };
+        addU(i, 1.0L); for (size_t q = 0; q < Lr[i].size(); ++q) addU(Lr[i][q].first, Lr[i][q].second);
+        for (long j = 0; j < n; ++j) r.LU(i, j) = (double)row[j];
+    }
+    return r;
+}
+
 struct W { gen::Csr A; std::shared_ptr<DMatrix> M; std::vector<double> xs, f, x0; long n; };
 
 template <class R, class P>
@@ -118,7 +160,7 @@ Plan generate(uint64_t seed, uint64_t run, bool thorough) {
     p.set("k", r.range(0, 3), 0);
     p.set("kbig", r.chance(0.15) ? 1 : 0, 0);      // ILU(k >= n)
     p.set("damping16", r.chance(0.5) ? 16 : r.range(8, 20), 8);
-    p.set("degree", r.range(1, 6), 1); p.set("power_iters", r.chance(0.3) ? r.range(3, 10) : 0, 0); p.set("cheb_scale", r.range(0, 1), 0); p.set("cheb_hi", r.range(0, 3), 0); p.set("cheb_lo", r.range(0, 3), 0);
+    p.set("degree", r.range(1, 6), 1); p.set("power_iters", r.chance(0.3) ? r.range(3, 10) : 0, 0); p.set("cheb_scale", r.range(0, 1), 0); p.set("ilut_p", r.range(0, 6), 0); p.set("ilut_tau", r.range(0, 3), 0); p.set("cheb_hi", r.range(0, 3), 0); p.set("cheb_lo", r.range(0, 3), 0);
     p.set("unsorted", r.chance(0.3) ? 1 : 0, 0);     // rows stored diagonal-first (smoothers that do not document sorted rows)
     p.set("block", r.chance(0.2) ? 1 : 0, 0);        // block-valued ILU exactness instead of the scalar worlds
     p.set("nt", r.chance(0.25) ? draw_nt(r, 1, 3) : draw_nt(r, 4, 32), 1);
@@ -198,6 +240,17 @@ Result execute(const Plan &p) {
             if (!(worst <= tol)) res.fail(sig("ilu-level-of-fill-reference", "factors-equal-reference-ILU(k)", fmt("k=%ld: (LU)(%ld,%ld) = %.17g, reference ILU(k) gives %.17g (%ld fill entries, %ld level updates of admitted entries)", k, wi, wj, LU(wi, wj), ref.LU(wi, wj), ref.fill, ref.lowered)));
             res.counts["iluk_reference_checked"]++; if (ref.lowered) res.counts["iluk_reference_with_lowered_levels"]++; if (ref.fill) res.counts["iluk_reference_with_fill"]++;
         };
+        auto ilut_reference = [&](auto &rs, double pfill, double tau) {
+            if (n > 40) return;
+            RefIlut ref = ref_ilut(w.A, pfill, tau);
+            if (ref.breakdown) return;
+            if (ref.ambiguous) { res.counts["ilut_ambiguous_worlds_skipped"]++; return; }
+            Eigen::MatrixXd B = extract(rs, w, true); Eigen::FullPivLU<Eigen::MatrixXd> lu(B); if (!lu.isInvertible()) { res.fail(sig("ilut-dual-threshold-reference", "singular", "extracted M^-1 is singular")); return; }
+            Eigen::MatrixXd LU = lu.inverse() * damping; double tol = 1e-8 * amax * std::max(1.0, 1.0 / lu.rcond() * 1e-8);
+            double worst = 0; long wi = 0, wj = 0; for (long i = 0; i < n; ++i) for (long j = 0; j < n; ++j) { double d = std::fabs(LU(i, j) - ref.LU(i, j)); if (d > worst) { worst = d; wi = i; wj = j; } }
+            if (!(worst <= tol)) res.fail(sig("ilut-dual-threshold-reference", "factors-equal-reference-ILUT", fmt("p=%g tau=%g: (LU)(%ld,%ld) = %.17g, reference ILUT gives %.17g (%ld entries dropped, %ld fill positions)", pfill, tau, wi, wj, LU(wi, wj), ref.LU(wi, wj), ref.dropped, ref.fill)));
+            res.counts["ilut_reference_checked"]++; if (ref.dropped) res.counts["ilut_reference_with_dropping"]++;
+        };
         bool exact_shape = shape != 0;
         switch (rl) {
         case R_JACOBI: { typedef rx::damped_jacobi<DBackend> R; R::params pr; pr.damping = (float)damping; R r(*w.M, pr, bp); fixed_point(r, "damped_jacobi"); record(r); apply_check(r, 2, "damped_jacobi");
@@ -261,7 +314,8 @@ Result execute(const Plan &p) {
         case R_ILU0: ILU_BLOCK(ilu0, (void)0, true, exact_shape, (void)0) break;
         case R_ILUK: ILU_BLOCK(iluk, ps.k = pp.k = (int)k, true, exact_shape || k > n, iluk_reference(rs)) break;
         case R_ILUP: ILU_BLOCK(ilup, ps.k = pp.k = (int)std::min<long>(k, 3), true, exact_shape, ilup_power_pattern(rs)) break;
-        default:     ILU_BLOCK(ilut, ps.p = pp.p = exact_shape ? 1000.0 : 2.0 + (double)k; ps.tau = pp.tau = exact_shape ? 0.0 : 0.01, false, exact_shape, (void)0) break;
+        default:     { static const double pf[] = { 2.0, 1.0, 1.5, 2.5, 3.0, 1.25 }, tf[] = { 0.01, 0.0, 0.001, 0.1 }; double pfill = exact_shape ? 1000.0 : (p.get("ilut_p") ? pf[p.get("ilut_p") % 6] : 2.0 + (double)k), tauv = exact_shape ? 0.0 : tf[p.get("ilut_tau") % 4];
+                     ILU_BLOCK(ilut, ps.p = pp.p = pfill; ps.tau = pp.tau = tauv, false, exact_shape, ilut_reference(rs, pfill, tauv)) } break;
         }
     };
 
